@@ -6,6 +6,7 @@ import (
 	"net"
 	"os"
 	"reflect"
+	"strings"
 	"sync"
 	"sync/atomic"
 	"syscall"
@@ -501,7 +502,7 @@ func TestC11(t *testing.T) {
 		"writes naming a foreign channel and a closed channel object, concurrent incoming traffic, one channel closing and re-opening in a third of the scenarios, v1 nodes in a quarter; " +
 		"flow control keeps every goroutine's outstanding items per channel <= W with writers x W <= 48 < 64 so that any missing item is a loss; hook perturbation at api.write, loop.*, ch.enqueue, ch.writer.dequeue. " +
 		"Offline checker over unique ids: whole frames only, at most once, isolation (To / Except / closed / foreign), delivery to channels open for the whole call, FIFO per (goroutine, channel), header fields. " +
-		"A separate scenario makes one transport write fail once (plain error, deadline exceeded, EPIPE, short write) and demands exactly-once in-order delivery of everything written afterwards to the still open channel. " +
+		"Fan-out over TCP client, UDP client, UDP broadcast and serial endpoints with real sockets / a fake port (datagram links: one whole frame per datagram, order, uniqueness, isolation). A separate scenario makes one transport write fail once (plain error, deadline exceeded, EPIPE, short write) and demands exactly-once in-order delivery of everything written afterwards to the still open channel. " +
 		"distinct = distinct interleaving signatures")
 	rep.Assume("channels that open or close during a call may or may not receive it; linearizability across goroutines is not demanded (only per-goroutine order is promised)")
 	seed := shardSeed()
@@ -514,6 +515,9 @@ func TestC11(t *testing.T) {
 		if i%10 == 9 {
 			c11transient(rep, seed, i/10)
 		}
+		if i%20 == 19 {
+			c11clients(rep, seed, i/20)
+		}
 		if rep.NViolations() > 4 {
 			break
 		}
@@ -523,6 +527,7 @@ func TestC11(t *testing.T) {
 	rep.Floor("hook:ch.enqueue", 5000)
 	rep.Floor("scenarios_with_closing_channel", 3)
 	rep.Floor("scenarios_tcp", 3)
+	rep.Floor("scenarios_clients", 2)
 }
 
 // c11transient: one write on one channel fails once (the kinds of error a transport reports when it is briefly unable to
@@ -872,4 +877,284 @@ func c11tcp(rep *vh.Report, seed uint64, idx int) {
 	rep.Count("write_calls", len(calls))
 	rep.Count("scenarios_tcp", 1)
 	rep.Distinct("sig", hookSignature())
+}
+
+// c11clients: fan-out over the endpoint kinds the other scenarios do not use — TCP client, UDP client, UDP broadcast and
+// serial (fake opener) — with two goroutines writing unique items through All / To / Except. Stream links: every
+// expected item exactly once, per-goroutine order, whole frames. Datagram links: every datagram is exactly one whole
+// frame, no item twice, per-goroutine order, nothing that was not addressed to the link (loss is the network's right).
+func c11clients(rep *vh.Report, seed uint64, idx int) {
+	if aborted() {
+		return
+	}
+	r := vh.Sub(seed, fmt.Sprintf("c11-clients-%d", idx))
+	hookReset(r.U64(), true, false)
+	ln, err := net.Listen("tcp4", "127.0.0.1:0")
+	if err != nil {
+		rep.Inconclusive("C11 clients: " + err.Error())
+		return
+	}
+	defer ln.Close()
+	upc, err := net.ListenPacket("udp4", "127.0.0.1:0")
+	if err != nil {
+		rep.Inconclusive("C11 clients: " + err.Error())
+		return
+	}
+	defer upc.Close()
+	bport := freeUDPPort()
+	bpc, err := net.ListenPacket("udp4", fmt.Sprintf("127.255.255.255:%d", bport))
+	if err != nil {
+		rep.Inconclusive("C11 clients: cannot listen on the loopback broadcast address: " + err.Error())
+		return
+	}
+	defer bpc.Close()
+	sf := &serialFake{errOpen: fmt.Errorf("open failed")}
+	gomavlib.VerifSetSerialOpenFunc(sf.open)
+	node := &gomavlib.Node{
+		Endpoints: []gomavlib.EndpointConf{
+			gomavlib.EndpointTCPClient{Address: ln.Addr().String()},
+			gomavlib.EndpointUDPClient{Address: upc.LocalAddr().String()},
+			gomavlib.EndpointUDPBroadcast{BroadcastAddress: fmt.Sprintf("127.255.255.255:%d", bport), LocalAddress: fmt.Sprintf("127.0.0.1:%d", bport)},
+			gomavlib.EndpointSerial{Device: "/dev/ttyFAKE", Baud: 57600},
+		},
+		Dialect: testDialect, OutVersion: gomavlib.V2, OutSystemID: 44, OutComponentID: 7, HeartbeatDisable: true, IdleTimeout: 10 * time.Second,
+	}
+	if err := node.Initialize(); err != nil {
+		rep.Inconclusive("C11 clients: " + err.Error())
+		return
+	}
+	cons := newConsumer(rep, "C11", "clients", node)
+	cons.start()
+	const fam = 0xC9
+	// receivers
+	type link struct {
+		kind  string
+		mu    sync.Mutex
+		uids  []uint64
+		bad   string
+		count int32
+	}
+	links := map[string]*link{"tcp-client": {kind: "tcp-client"}, "udp-client": {kind: "udp-client"}, "udp-broadcast": {kind: "udp-broadcast"}, "serial": {kind: "serial"}}
+	record := func(l *link, f *ref.FrameSpec) {
+		if uid, ok := uidOfWire(f); ok && uid>>56 == fam {
+			l.mu.Lock()
+			l.uids = append(l.uids, uid)
+			l.mu.Unlock()
+			atomic.AddInt32(&l.count, 1)
+		}
+	}
+	var rwg sync.WaitGroup
+	rwg.Add(1)
+	go func() { // TCP: a byte stream of whole frames
+		defer rwg.Done()
+		_ = ln.(*net.TCPListener).SetDeadline(time.Now().Add(3 * time.Second))
+		conn, err := ln.Accept()
+		if err != nil {
+			return
+		}
+		defer conn.Close()
+		l := links["tcp-client"]
+		var acc []byte
+		buf := make([]byte, 8192)
+		for {
+			n, err := conn.Read(buf)
+			acc = append(acc, buf[:n]...)
+			for len(acc) > 0 {
+				f, used, st := ref.ParseAt(acc, 0)
+				if st == ref.ParseIncomplete {
+					break
+				}
+				if st != ref.ParseOK {
+					l.mu.Lock()
+					l.bad = "the byte stream on the wire is not a sequence of whole frames"
+					l.mu.Unlock()
+					return
+				}
+				record(l, f)
+				acc = acc[used:]
+			}
+			if err != nil {
+				return
+			}
+		}
+	}()
+	dgram := func(pc net.PacketConn, l *link) {
+		defer rwg.Done()
+		buf := make([]byte, 4096)
+		for {
+			n, _, err := pc.ReadFrom(buf)
+			if err != nil {
+				return
+			}
+			f, used, st := ref.ParseAt(buf[:n], 0)
+			if st != ref.ParseOK || used != n {
+				l.mu.Lock()
+				l.bad = fmt.Sprintf("a datagram of %d bytes is not exactly one whole frame", n)
+				l.mu.Unlock()
+				continue
+			}
+			record(l, f)
+		}
+	}
+	rwg.Add(2)
+	go dgram(upc, links["udp-client"])
+	go dgram(bpc, links["udp-broadcast"])
+	if !cons.waitOpen(4, 2*time.Second) {
+		rep.Inconclusive(fmt.Sprintf("C11 clients: only %d of 4 channels opened", len(cons.openChannels())))
+		safeClose(rep, node)
+		return
+	}
+	chOf := map[string]*gomavlib.Channel{}
+	for _, ci := range cons.openChannels() {
+		switch {
+		case strings.HasPrefix(ci.Label, "tcp:"):
+			chOf["tcp-client"] = ci.Ch
+		case ci.Label == "udp:"+upc.LocalAddr().String():
+			chOf["udp-client"] = ci.Ch
+		case strings.HasPrefix(ci.Label, "udp:127.255.255.255"):
+			chOf["udp-broadcast"] = ci.Ch
+		case strings.HasPrefix(ci.Label, "serial"):
+			chOf["serial"] = ci.Ch
+		}
+	}
+	if len(chOf) != 4 {
+		rep.Inconclusive("C11 clients: could not tell the four channels apart by their labels")
+		safeClose(rep, node)
+		return
+	}
+	kinds := []string{"tcp-client", "udp-client", "udp-broadcast", "serial"}
+	// writers
+	want := map[string][][]uint64{} // per link, per goroutine: the items addressed to it, in submission order
+	for _, k := range kinds {
+		want[k] = make([][]uint64, 2)
+	}
+	var wmu sync.Mutex
+	var wwg sync.WaitGroup
+	nItems := vh.Pick(120, 600)
+	for g := 0; g < 2; g++ {
+		wwg.Add(1)
+		gr := r.Fork()
+		go func(g int) {
+			defer wwg.Done()
+			for i := 0; i < nItems; i++ {
+				uid := uint64(fam)<<56 | uint64(g)<<32 | uint64(i+1)
+				m := &MessageVfUid{Uid: uid, Kind: 1, Pad: [3]uint8{1, 2, 3}}
+				k := kinds[gr.Intn(4)]
+				var to []string
+				switch gr.Intn(3) {
+				case 0:
+					to = kinds
+					_ = node.WriteMessageAll(m)
+				case 1:
+					to = []string{k}
+					_ = node.WriteMessageTo(chOf[k], m)
+				case 2:
+					for _, x := range kinds {
+						if x != k {
+							to = append(to, x)
+						}
+					}
+					_ = node.WriteFrameExcept(chOf[k], &frame.V2Frame{SequenceNumber: byte(i), SystemID: 5, ComponentID: 6, Message: m})
+				}
+				wmu.Lock()
+				for _, x := range to {
+					want[x][g] = append(want[x][g], uid)
+				}
+				wmu.Unlock()
+				// flow control: at most ~20 items of this goroutine outstanding on the stream links
+				if i%16 == 15 {
+					need := int32(0)
+					wmu.Lock()
+					need = int32(len(want["tcp-client"][0]) + len(want["tcp-client"][1]) - 40)
+					wmu.Unlock()
+					waitFor(func() bool { return atomic.LoadInt32(&links["tcp-client"].count) >= need }, func() int64 { return int64(atomic.LoadInt32(&links["tcp-client"].count)) }, 300*time.Millisecond)
+				}
+				time.Sleep(100 * time.Microsecond)
+			}
+		}(g)
+	}
+	wwg.Wait()
+	// the serial link is the fake port
+	_, ports := sf.snapshot()
+	serialTr := ports[len(ports)-1]
+	total := func(k string) int { return len(want[k][0]) + len(want[k][1]) }
+	waitFor(func() bool {
+		acc, _ := wireUIDs(serialTr, fam)
+		return int(atomic.LoadInt32(&links["tcp-client"].count)) >= total("tcp-client") && len(acc) >= total("serial") &&
+			int(atomic.LoadInt32(&links["udp-client"].count)) >= total("udp-client") && int(atomic.LoadInt32(&links["udp-broadcast"].count)) >= total("udp-broadcast")
+	}, func() int64 {
+		return int64(atomic.LoadInt32(&links["tcp-client"].count)+atomic.LoadInt32(&links["udp-client"].count)+atomic.LoadInt32(&links["udp-broadcast"].count)) + int64(serialTr.NWrites())
+	}, 800*time.Millisecond)
+	if !safeClose(rep, node) {
+		return
+	}
+	upc.Close()
+	bpc.Close()
+	rwg.Wait()
+	<-cons.done
+	for _, w := range serialTr.Writes() {
+		f, used, st := ref.ParseAt(w.Data, 0)
+		if st != ref.ParseOK || used != len(w.Data) {
+			links["serial"].bad = "a write to the serial port is not exactly one whole frame"
+			continue
+		}
+		record(links["serial"], f)
+	}
+	for _, k := range kinds {
+		l := links[k]
+		wit := map[string]interface{}{"endpoint": k, "received": len(l.uids), "addressed": total(k)}
+		if l.bad != "" {
+			rep.Violation("what=interleaved ep="+k, l.bad, wit)
+			continue
+		}
+		stream := k == "tcp-client" || k == "serial"
+		seen := map[uint64]bool{}
+		pos := [2]int{}
+		ok := true
+		for _, u := range l.uids {
+			g := int(u >> 32 & 1)
+			if seen[u] {
+				rep.Violation("what=duplicate ep="+k, fmt.Sprintf("item %x reached the link twice", u), wit)
+				ok = false
+				break
+			}
+			seen[u] = true
+			// per-goroutine order: u must be found further on in that goroutine's expected sequence
+			j := pos[g]
+			for j < len(want[k][g]) && want[k][g][j] != u {
+				j++
+			}
+			if j == len(want[k][g]) {
+				what := "what=isolation ep=" + k
+				msg := fmt.Sprintf("item %x was not addressed to this link", u)
+				for _, e := range want[k][g][:pos[g]] {
+					if e == u {
+						what, msg = "what=fifo ep="+k, fmt.Sprintf("item %x of goroutine %d overtaken by a later one", u, g)
+					}
+				}
+				rep.Violation(what, msg, wit)
+				ok = false
+				break
+			}
+			if stream && j != pos[g] {
+				rep.Violation("what=lost ep="+k, fmt.Sprintf("item %x of goroutine %d never reached the stream link although its successor did", want[k][g][pos[g]], g), wit)
+				ok = false
+				break
+			}
+			pos[g] = j + 1
+		}
+		if ok && stream && len(l.uids) != total(k) {
+			rep.Violation("what=lost ep="+k, fmt.Sprintf("%d of the %d items addressed to the link arrived (backlog was kept below the queue size)", len(l.uids), total(k)), wit)
+		}
+		if !stream && len(l.uids) < total(k) {
+			rep.Count("clients_datagrams_not_delivered", total(k)-len(l.uids))
+			if len(l.uids) == 0 && total(k) > 0 {
+				rep.Violation("what=lost ep="+k, "nothing of what was addressed to the link arrived", wit)
+			}
+		}
+		rep.Count("clients_items_"+k, len(l.uids))
+	}
+	rep.Eval(1)
+	rep.Count("scenarios_clients", 1)
+	rep.Distinct("clients", idx)
 }
